@@ -34,7 +34,7 @@ def cases(tier, seed):
 
 def gate(agg):
     c = agg["cnt"]
-    need = ["pairs_compared", "evaluator_selfchecks", "heuristic_diagrams_compared"] + [f"t:{t}" for t in TRANSFORMS] + ["sanitize_clashes", "attractor_sets_compared"]
+    need = ["pairs_compared", "evaluator_selfchecks", "heuristic_diagrams_compared", "build_results_compared"] + [f"t:{t}" for t in TRANSFORMS] + ["sanitize_clashes", "attractor_sets_compared"]
     return [f"monitor counter {k} is zero" for k in need if c.get(k, 0) == 0]
 
 
@@ -286,6 +286,38 @@ def run_case(case):
             res.c("attractor_sets_compared", len(att1))
             if sorted(att1) != att0:
                 res.v(f"attractors-differ:{t}", f"{len(att1)} attractor sets vs {len(att0)}; they differ after mapping back", ctx=ctx)
+            # the default pipeline (build = block expansion + seeds): diagram shapes may legitimately differ under
+            # renaming, the minimal trap spaces and the set of attractors may not
+            if "build" not in alt0:
+                b0 = bb.make_sd(net)
+                W(lambda: b0.build())
+                alt0["build"] = (
+                    sorted(bb.kspace(ref, b0.node_data(i)["space"]) for i in b0.minimal_trap_spaces()),
+                    sorted({tuple(sorted(bb.vset_states(ref, vs)[0])) for ss in W(lambda: b0.expanded_attractor_sets(), nodes=len(b0)).values() for vs in ss}),
+                )
+            b1 = bb.make_sd(new, fmt=fmt)
+            W(lambda: b1.build())
+            bm = sorted(_mapped_dump_space(b1.node_data(i)["space"], back, flip, ref, bb) for i in b1.minimal_trap_spaces())
+            ba = set()
+            for ss in W(lambda: b1.expanded_attractor_sets(), nodes=len(b1)).values():
+                for vs in ss:
+                    st, _ = bb.vset_states(rnew, vs)
+                    mapped = []
+                    for s2 in st:
+                        sx = 0
+                        for i, o in enumerate(ref.names):
+                            bit = (s2 >> perm[i]) & 1
+                            if o in flip:
+                                bit = 1 - bit
+                            if bit:
+                                sx |= 1 << i
+                        mapped.append(sx)
+                    ba.add(tuple(sorted(mapped)))
+            res.c("build_results_compared")
+            if bm != alt0["build"][0]:
+                res.v(f"build-minimal-trap-spaces-differ:{t}", f"build() finds {len(bm)} minimal trap spaces for the rewritten network, {len(alt0['build'][0])} for the original", ctx=ctx)
+            if sorted(ba) != alt0["build"][1]:
+                res.v(f"build-attractors-differ:{t}", f"build() finds {len(ba)} attractors for the rewritten network, {len(alt0['build'][1])} for the original", ctx=ctx)
     except bb.Aborted as e:
         res.inconclusive = f"aborted: {e}"
     res.nontrivial = len(d0) >= 3 or cx
